@@ -405,3 +405,42 @@ Lemma valset_empty_witnesses :
   valset_epoch_end 100 3 (fold_left vstep h_all_below_min v3) = None /\
   valset_epoch_end 100 3 (fold_left vstep h_all_jailed v3) = None.
 Proof. repeat split; reflexivity. Qed.
+
+(* ---- operator commission ---- *)
+Lemma commission_valid_range r m ch : commission_valid r m ch = true -> 0 <= r <= P.
+Proof.
+  unfold commission_valid. intro H.
+  repeat (apply andb_prop in H; destruct H as [H ?]).
+  repeat match goal with H : negb (_ <? _) = true |- _ => apply negb_true_iff in H; apply Z.ltb_ge in H end. lia.
+Qed.
+
+Lemma validator_split_no_panic tokens rate : 0 <= tokens -> 0 <= rate <= P -> is_panic (validator_split tokens rate) = false.
+Proof.
+  intros Ht Hr. pose proof P_pos as HP. unfold validator_split.
+  assert (H : (tokens * rate + P / 2) / P <= tokens).
+  { assert (Hh : 0 <= P / 2 < P) by (split; [apply Z.div_pos; lia | apply Z.div_lt; lia]).
+    assert (H1 : (tokens * rate + P / 2) / P <= (tokens * P + P / 2) / P) by (apply Z.div_le_mono; nia).
+    rewrite Z.div_add_l in H1 by lia. rewrite (Z.div_small (P / 2) P Hh) in H1. lia. }
+  destruct (tokens - (tokens * rate + P / 2) / P <? 0) eqn:E; [apply Z.ltb_lt in E; lia|reflexivity].
+Qed.
+
+Lemma register_preserves_rates_ok r m ch stored :
+  rates_ok stored = true -> rates_ok (register_operator r m ch stored) = true.
+Proof.
+  intro H. unfold register_operator. destruct (commission_valid r m ch) eqn:V; [|exact H].
+  unfold rates_ok in *. rewrite forallb_app, H. simpl.
+  destruct (commission_valid_range r m ch V) as [H1 H2].
+  apply Z.leb_le in H1. apply Z.leb_le in H2. rewrite H1, H2. reflexivity.
+Qed.
+
+Lemma registry_history_rates_ok (regs : list (Z * Z * Z)) :
+  rates_ok (fold_left (fun st x => register_operator (fst (fst x)) (snd (fst x)) (snd x) st) regs []) = true.
+Proof.
+  assert (G : forall st, rates_ok st = true ->
+    rates_ok (fold_left (fun st x => register_operator (fst (fst x)) (snd (fst x)) (snd x) st) regs st) = true).
+  { induction regs as [|x r IH]; intros st H; simpl; [exact H|]. apply IH. apply register_preserves_rates_ok. exact H. }
+  apply G. reflexivity.
+Qed.
+
+Lemma commission_above_one_panics : validator_split (1000 * P) (2 * P) = Panic.
+Proof. vm_compute. reflexivity. Qed.
